@@ -6,7 +6,7 @@ from collections import Counter
 
 import numpy as np
 import sympy
-from sympy.physics.quantum import Dagger
+from sympy.physics.quantum import Dagger, pauli
 from sympy.physics.quantum.boson import BosonOp
 
 from vf import secondq
@@ -37,7 +37,8 @@ BUDGET = {"quick": dict(cases=150, seconds=300), "thorough": dict(cases=2400, se
 CASE_TIMEOUT = 150
 MONITORS = {"product": False, "solvers": False}
 MONITOR_VERDICTS = ()
-FAMILIES = ["scalar", "scalar", "scalar_matrix1", "blocks", "matrix_fd", "mask", "multiblock", "multiblock"]
+# 9 families x 8 mode sets (coprime): every family meets every mode set
+FAMILIES = ["scalar", "scalar", "scalar_matrix1", "blocks", "matrix_fd", "mask", "multiblock", "multiblock", "mask2"]
 
 
 def plan(tier, seed):
@@ -71,6 +72,8 @@ def run_case(spec):
     ops = secondq.modes(rng, spec["modes"] if family in ("scalar", "scalar_matrix1") else "bosons" if family == "mask" else str(rng.choice(["bosons", "mixed", "spin", "ladder"])))
     if family == "mask":
         ops = [BosonOp("a")]
+    if family == "mask2":
+        ops = [BosonOp("a"), BosonOp("b")] if rng.random() < 0.6 else [BosonOp("a"), pauli.SigmaMinus("s")]
     ops = sorted(ops, key=lambda op: (generator_types.index(type(op)), str(op.name)))
     n_modes = len(ops)
     max_order = 3 if n_modes == 1 else 2
@@ -88,6 +91,35 @@ def run_case(spec):
             if family == "scalar":
                 outs = block_diagonalize(h0 + g * h1, symbols=[g])
                 H0b, H1b = [[h0]], [[h1]]
+            elif family == "mask2":
+                # scalar Hamiltonian of two modes with an operator-valued mask whose terms span several modes, e.g.
+                # a*b + h.c. (eliminate pair creation, keep hopping) or a*sigma_+ + h.c.: only the terms whose tuple of
+                # occupation shifts equals that of a mask term may be eliminated
+                spin2 = isinstance(ops[1], pauli.SigmaMinus)
+                cand = [(1, 1), (1, -1), (1, 0), (0, 1), (2, 0), (2, 1), (2, -1)] + ([] if spin2 else [(0, 2), (1, 2), (1, -2)])
+
+                def mono(t):
+                    out = sympy.Integer(1)
+                    for o, p_ in zip(ops, t):
+                        lo_, hi_ = secondq.gens_of(o)
+                        out = out * (lo_**p_ if p_ > 0 else hi_ ** (-p_) if p_ < 0 else 1)
+                    return out
+
+                picks = [cand[int(q)] for q in rng.choice(len(cand), size=int(rng.choice([1, 1, 2])), replace=False)]
+                m_expr = sympy.Add(*[mono(t) + Dagger(mono(t)) for t in picks])
+                mask_shifts = {t for t in picks} | {tuple(-x for x in t) for t in picks}
+                # the perturbation contains terms inside and outside the mask (and inside its per-mode closure)
+                extra_t = [cand[int(q)] for q in rng.choice(len(cand), size=3, replace=False)]
+                for t in set(picks[:1] + extra_t + [(picks[0][0], -picks[0][1])]):
+                    if not any(t) or t not in cand and tuple(-x for x in t) not in cand:
+                        continue
+                    cf = secondq.R(int(rng.integers(1, 4)), int(rng.integers(2, 5)))
+                    h1 = h1 + cf * (mono(t) + Dagger(mono(t)))
+                    deg = max(deg, sum(abs(x) for x in t))
+                outs = block_diagonalize([h0, h1], fully_diagonalize=m_expr)
+                H0b, H1b = [[h0]], [[h1]]
+                counters["mask2_noncartesian"] += int(len({t[0] for t in mask_shifts}) * len({t[1] for t in mask_shifts}) > len(mask_shifts))
+                counters["mask2_spin"] += int(spin2)
             elif family == "scalar_matrix1":
                 outs = block_diagonalize([sympy.Matrix([[h0]]), sympy.Matrix([[h1]])])
                 H0b, H1b = [[h0]], [[h1]]
@@ -173,6 +205,11 @@ def run_case(spec):
                     inb = blk == b
                     sub = np.outer(inb, inb)
                     keep = np.where(sub, np.eye(N, dtype=bool), keep)  # fully diagonalised: only identical states kept
+            elif family == "mask2":
+                p2 = M.occ[fi][None, :, :2] - M.occ[fi][:, None, :2]  # p = m - n per mode for <n| . |m>
+                keep = np.ones((N, N), bool)
+                for t in mask_shifts:
+                    keep &= ~((p2[:, :, 0] == t[0]) & (p2[:, :, 1] == t[1]))
             else:
                 occ = M.occ[:, 0]
                 keep = np.ones((N, N), bool)
@@ -285,7 +322,7 @@ def run_case(spec):
 
 def finalize(c, tier, evaluations, distinct):
     reasons = []
-    need = dict(matrix_elements_compared=2000, operator_identities_checked=200, family_scalar=20, family_blocks=8, family_matrix_fd=8, family_mask=8, family_multiblock=10, multiblock_fd=3,
+    need = dict(matrix_elements_compared=2000, operator_identities_checked=200, family_scalar=20, family_blocks=8, family_matrix_fd=8, family_mask=8, family_mask2=8, mask2_noncartesian=4, family_multiblock=10, multiblock_fd=3,
                 stat_BosonOp=30, stat_FermionOp=15, stat_LadderOp=10, stat_SigmaMinus=10)
     for k, v in need.items():
         if c.get(k, 0) < v:
